@@ -2,6 +2,7 @@
 use crate::engine::{self, Ctx};
 
 pub mod c01;
+pub mod c19;
 
 macro_rules! table {
     ($($id:literal => $t:ty),* $(,)?) => {
@@ -22,6 +23,7 @@ macro_rules! table {
 
 table! {
     "C01" => c01::C01,
+    "C19" => c19::C19,
 }
 
 pub fn helper(args: &[String]) -> i32 {
